@@ -39,8 +39,8 @@ func (vf28Auth) RefreshJWTJWKS()                                  {}
 
 type vf28PM struct{}
 
-func (vf28PM) APIPathsList() (*defs.APIPathList, error)   { return &defs.APIPathList{}, nil }
-func (vf28PM) APIPathsGet(string) (*defs.APIPath, error)  { return nil, conf.ErrPathNotFound }
+func (vf28PM) APIPathsList() (*defs.APIPathList, error)  { return &defs.APIPathList{}, nil }
+func (vf28PM) APIPathsGet(string) (*defs.APIPath, error) { return nil, conf.ErrPathNotFound }
 func (vf28PM) APIForwardDestList(string) (*defs.APIForwardDestList, error) {
 	return &defs.APIForwardDestList{}, nil
 }
